@@ -40,6 +40,8 @@ type vtPKI struct {
 	ca, otherCA *x509.Certificate
 	caKey       *ecdsa.PrivateKey
 	otherCAKey  *ecdsa.PrivateKey
+	hostCA      *x509.Certificate // the only CA of the host's trust store, as this process sees it
+	hostCAKey   *ecdsa.PrivateKey
 	serial      int64
 }
 
@@ -57,6 +59,7 @@ func (p *vtPKI) newCA(cn string) (*x509.Certificate, *ecdsa.PrivateKey, []byte) 
 type vtLeafOpt struct {
 	selfSigned bool
 	otherCA    bool
+	hostCA     bool
 	notBefore  time.Time
 	notAfter   time.Time
 	eku        []x509.ExtKeyUsage
@@ -84,6 +87,9 @@ func (p *vtPKI) leaf(o vtLeafOpt) tls.Certificate {
 	if o.otherCA {
 		parent, pkey = p.otherCA, p.otherCAKey
 	}
+	if o.hostCA {
+		parent, pkey = p.hostCA, p.hostCAKey
+	}
 	var der []byte
 	if o.selfSigned {
 		der, _ = x509.CreateCertificate(rand.Reader, tmpl, tmpl, &key.PublicKey, key)
@@ -98,6 +104,15 @@ func newVtPKI(t *testing.T) *vtPKI {
 	var caPEM, otherPEM []byte
 	p.ca, p.caKey, caPEM = p.newCA("verif-ca")
 	p.otherCA, p.otherCAKey, otherPEM = p.newCA("other-ca")
+	// the host's trust store of this process: one throw-away CA.  crypto/x509 reads the store once, on first use, from
+	// SSL_CERT_FILE / SSL_CERT_DIR; nothing in this test binary has used it yet.
+	var hostPEM []byte
+	p.hostCA, p.hostCAKey, hostPEM = p.newCA("host-store-ca")
+	storeDir := filepath.Join(p.dir, "host-store")
+	_ = os.MkdirAll(filepath.Join(storeDir, "certs"), 0o700)
+	_ = os.WriteFile(filepath.Join(storeDir, "bundle.pem"), hostPEM, 0o600)
+	_ = os.Setenv("SSL_CERT_FILE", filepath.Join(storeDir, "bundle.pem"))
+	_ = os.Setenv("SSL_CERT_DIR", filepath.Join(storeDir, "certs"))
 	p.caPath = filepath.Join(p.dir, "ca.pem")
 	p.otherCAPath = filepath.Join(p.dir, "other-ca.pem")
 	_ = os.WriteFile(p.caPath, caPEM, 0o600)
@@ -136,6 +151,7 @@ func (p *vtPKI) credentials(role string) map[string]*tls.Certificate {
 		"valid":          mk(vtLeafOpt{dns: name}),
 		"selfsigned":     mk(vtLeafOpt{selfSigned: true, dns: name}),
 		"otherca":        mk(vtLeafOpt{otherCA: true, dns: name}),
+		"hostca":         mk(vtLeafOpt{hostCA: true, dns: name}), // issued by a CA of the host's trust store
 		"expired1h":      mk(vtLeafOpt{dns: name, notBefore: time.Now().Add(-48 * time.Hour), notAfter: time.Now().Add(-time.Hour)}),
 		"expired90s":     mk(vtLeafOpt{dns: name, notBefore: time.Now().Add(-48 * time.Hour), notAfter: time.Now().Add(-90 * time.Second)}),
 		"notyetvalid90s": mk(vtLeafOpt{dns: name, notBefore: time.Now().Add(90 * time.Second), notAfter: time.Now().Add(48 * time.Hour)}),
